@@ -18,8 +18,8 @@ EXPLANATION = (
     "the cap by the very Irr that is returned. C13.c (index spaces): Schedule is built on ClockStruct.time_span and read "
     "at the time-step counter; SMT is read at int(growth_stage)-1 and growth_stage is set to 1 on the first day of a "
     "season before it is used. C13.d: each strategy's parameter is read only inside that strategy's branch. C13.e: the daily schedule is aligned with the simulation days by label; a day offset used as an array position "
-    "must be checked against 0 and the length (negative offsets wrap). NOT decided: "
-    "interval arithmetic ((dap-1) % k), the threshold comparison and the refill amount (numeric).")
+    "must be checked against 0 and the length (negative offsets wrap). C13.f: the interval day test is (dap - 1) % interval == 0 (normal form). NOT decided: "
+    "the ((dap-1) % k), the threshold comparison and the refill amount (numeric).")
 
 
 def _find_irrigation(prog):
@@ -99,6 +99,39 @@ def rule_e(chk, prog):
         chk.violation("C13.e", f"{rim.module}:{rim.qualname}", "daily schedule array", "the schedule is neither aligned by label on time_span nor built from checked day offsets",
                       loc=rim.loc())
     chk.notes["day_offset_index_sites"] = n
+
+
+def rule_f(chk, prog):
+    """C13.f: fixed-interval irrigation occurs on days 1, 1+k, 1+2k, ... after planting: the day test of the interval branch is
+    `<days after planting - 1> % <interval> == 0` (normal form of the left operand of %: the dap formal minus 1; right operand: the interval formal)"""
+    from .. import affine as A
+    from ..symb import Sym
+    ctx = irrigation_context(chk, prog)
+    fi, formal_of, call, params = ctx["fi"], ctx["formal_of"], ctx["call"], ctx["params"]
+    f_dap = next((params[i] for i, a in enumerate(call.args) if isinstance(a, ast.Attribute) and a.attr == "dap"), None)
+    f_int = next((params[i] for i, a in enumerate(call.args) if isinstance(a, ast.Attribute) and a.attr == "IrrInterval"), None)
+    f_m = formal_of.get("irrigation_method")
+    if not (f_dap and f_int and f_m):
+        raise AnalysisError("irrigation() no longer receives dap / IrrInterval / irrigation_method")
+    where = f"{fi.module}:{fi.qualname}"
+    sym = Sym(prog, fi, consts={f_m: 2})
+    n = 0
+    for node in sym.cfg.live_nodes():
+        c = node.ast
+        if node.kind == "test" and isinstance(c, ast.Compare) and isinstance(c.left, ast.BinOp) and isinstance(c.left.op, ast.Mod) and node.id in sym.state_in:
+            n += 1
+            st = sym.state_in[node.id]
+            left = sym.nf(c.left.left, st)
+            want = A.add(A.atom(f_dap), A.const(1), -1)
+            k_ok = isinstance(c.left.right, ast.Name) and c.left.right.id == f_int
+            zero = isinstance(c.comparators[0], ast.Constant) and c.comparators[0].value == 0 and isinstance(c.ops[0], ast.Eq)
+            construct = norm(c)
+            if A.equal(left, want) and k_ok and zero:
+                chk.ok("C13.f", where, construct, f"({f_dap} - 1) % {f_int} == 0: days 1, 1+k, 1+2k, ...")
+            else:
+                chk.violation("C13.f", where, construct, f"the interval test is on {A.text(left)[:60]} % {norm(c.left.right)} {'== 0' if zero else norm(c.comparators[0])}, "
+                              f"not on ({f_dap} - 1) % {f_int} == 0: irrigation does not fall on days 1, 1+k, 1+2k after planting", loc=fi.loc(c))
+    chk.floor("C13.f", n, 1, "interval day tests in irrigation()")
 
 
 def run(chk, prog, tier):
@@ -296,6 +329,7 @@ def run(chk, prog, tier):
                 chk.violation("C13.d", where, construct, f"parameter of strategy {m} is read outside the branch {f_method} == {m}", loc=fi.loc(rd))
     chk.assume("A-1")
     rule_e(chk, prog)
+    rule_f(chk, prog)
     chk.exhaustive = True
 
 
